@@ -125,6 +125,9 @@ func run(cs Case) ev.Outcome {
 		want   []*big.Int
 		desc   string
 		packed []*big.Int
+		// divZero: the interpreter stopped at a division by zero;
+		// want is the output of the first configuration.
+		divZero bool
 	}
 	var vecs []vec
 	cfgs := configs()
@@ -142,6 +145,7 @@ func run(cs Case) ev.Outcome {
 	var first *circuit.Circuit
 	var failing []Config
 	var firstFail string
+	firstDivZero := false
 	for ci, cfg := range cfgs {
 		params := utils.NewParams()
 		params.OptPruneGates = cfg.Prune
@@ -166,11 +170,8 @@ func run(cs Case) ev.Outcome {
 					return ev.Outcome{Skip: "bad input vector"}
 				}
 				want, err := p.Run(args)
-				if mpcl.IsDivZero(err) {
-					ev.Get(prop).Count("input-vectors-skipped-division-by-zero", 1)
-					continue
-				}
-				if err != nil {
+				divZero := mpcl.IsDivZero(err)
+				if err != nil && !divZero {
 					return ev.Outcome{Skip: "interpreter: " + err.Error()}
 				}
 				cin, err := mpcl.CircuitInputs(circ, packed)
@@ -178,8 +179,22 @@ func run(cs Case) ev.Outcome {
 					return ev.Fail("io-shape", "%v\n%s", err, src)
 				}
 				v := vec{cin: cin, desc: fmt.Sprint(in), packed: packed}
-				for i, r := range main.Results {
-					v.want = append(v.want, p.Pack(r, want[i]))
+				if divZero {
+					// The language does not say what x / 0 is, the
+					// property still does: every configuration computes
+					// the same function.  The first configuration's
+					// output is the reference for such a vector.
+					ev.Get(prop).Count("input-vectors-with-division-by-zero", 1)
+					v.desc += " (division by zero: reference = " + cfg.String() + ")"
+					v.divZero = true
+					v.want, err = circ.Compute(cin)
+					if err != nil {
+						return ev.Fail("compute-error", "%s: %v", cfg, err)
+					}
+				} else {
+					for i, r := range main.Results {
+						v.want = append(v.want, p.Pack(r, want[i]))
+					}
 				}
 				vecs = append(vecs, v)
 			}
@@ -204,6 +219,7 @@ func run(cs Case) ev.Outcome {
 					if firstFail == "" {
 						firstFail = fmt.Sprintf("%s: inputs %s: result %d = 0x%s, reference 0x%s",
 							cfg, v.desc, i, g, v.want[i].Text(16))
+						firstDivZero = v.divZero
 					}
 					if divOp != "" && i < len(got) && cfg.Target == utils.TargetGMW {
 						// One-operator division: look at every
@@ -247,6 +263,9 @@ func run(cs Case) ev.Outcome {
 					sig = "wrong-result/" + failing[0].String() + "/div-not-off-by-2"
 				}
 			}
+		}
+		if firstDivZero {
+			sig = "differs-on-division-by-zero/" + failing[0].String()
 		}
 		return ev.Fail(sig, "%d of %d configurations disagree with the reference; first: %s\n%s",
 			len(failing), len(cfgs), firstFail, src)
